@@ -8,6 +8,7 @@ mod c05;
 mod c06;
 mod c07;
 mod c18;
+mod c16;
 pub mod filters;
 
 use std::io::Write;
@@ -38,6 +39,7 @@ fn main() {
         "C06" => c06::run(&mut ctx),
         "C07" => c07::run(&mut ctx),
         "C18" => c18::run(&mut ctx),
+        "C16" => c16::run(&mut ctx),
         other => {
             eprintln!("unknown property {}", other);
             std::process::exit(2);
